@@ -72,7 +72,10 @@ class Base:
             if z3.is_false(e):
                 return False
         s = z3.Solver()
-        s.set("timeout", 400)
+        # pruning only.  Under quantified path conditions (dict / set iteration, frames) z3 never answers `sat`, only `unsat` at once or
+        # `unknown` after the whole budget: after a run of unknowns the budget is cut (refutations of infeasible paths take milliseconds)
+        unk = getattr(self, "_feas_unknown_run", 0)
+        s.set("timeout", 400 if unk < 8 else 60)
         for f in st.pc:
             s.add(f)
         if extra is not None:
@@ -80,7 +83,9 @@ class Base:
         for a in self.quick_axioms():
             s.add(a)
         self.feas_calls += 1
-        return s.check() != z3.unsat
+        r = s.check()
+        self._feas_unknown_run = unk + 1 if r == z3.unknown else 0
+        return r != z3.unsat
 
     def quick_axioms(self):
         return self.global_axioms
